@@ -34,6 +34,7 @@ func init() {
 			ruleStrictValidated(c, "R11")
 			ruleIndexResetOnEveryPath(c, "R5c")
 			ruleInterceptorSelection(c, "R12")
+			ruleConfiguredInterceptorsUsed(c, "R13")
 		},
 	})
 }
